@@ -127,7 +127,7 @@ pub struct WithTok {
 
 fn s_of(seed: u64) -> String {
     let n = (seed % 23) as usize;
-    (0..n).map(|i| (b'a' + ((seed as usize + i * 7) % 26) as u8) as char).collect()
+    (0..n).map(|i| (b'a' + (((seed % 26) as usize + i * 7) % 26) as u8) as char).collect()
 }
 const STATIC_STRS: [&str; 5] = ["", "a", "hello", "0123456789", "ünï"];
 
@@ -236,10 +236,10 @@ impl BK for Vec<u8> {
 }
 impl BK for Vec<String> {
     fn mk(seed: u64) -> Self {
-        (0..seed % 5).map(|i| s_of(seed + i)).collect()
+        (0..seed % 5).map(|i| s_of(seed.wrapping_add(i))).collect()
     }
     fn want_len(seed: u64) -> usize {
-        (0..seed % 5).map(|i| ((seed + i) % 23) as usize).sum()
+        (0..seed % 5).map(|i| (seed.wrapping_add(i) % 23) as usize).sum()
     }
 }
 impl BK for [u16; 3] {
@@ -252,10 +252,10 @@ impl BK for [u16; 3] {
 }
 impl BK for BTreeMap<u8, String> {
     fn mk(seed: u64) -> Self {
-        (0..seed % 4).map(|i| (i as u8, s_of(seed + i))).collect()
+        (0..seed % 4).map(|i| (i as u8, s_of(seed.wrapping_add(i)))).collect()
     }
     fn want_len(seed: u64) -> usize {
-        (0..seed % 4).map(|i| 1 + ((seed + i) % 23) as usize).sum()
+        (0..seed % 4).map(|i| 1 + (seed.wrapping_add(i) % 23) as usize).sum()
     }
 }
 impl BK for (u8, String) {
@@ -376,10 +376,10 @@ impl BK for Tok {
 }
 impl BK for Vec<Tok> {
     fn mk(seed: u64) -> Self {
-        (0..seed % 4).map(|i| Tok::new((seed + i) as u32)).collect()
+        (0..seed % 4).map(|i| Tok::new(seed.wrapping_add(i) as u32)).collect()
     }
     fn want_len(seed: u64) -> usize {
-        (0..seed % 4).map(|i| ((seed + i) as u32 % 50) as usize).sum()
+        (0..seed % 4).map(|i| (seed.wrapping_add(i) as u32 % 50) as usize).sum()
     }
     fn toks(seed: u64) -> usize {
         (seed % 4) as usize
